@@ -1,5 +1,7 @@
 """C03 - key decoding splits any byte stream losslessly into correctly named keys."""
 import itertools
+import json
+import os
 import contracts.events as E
 from pyvc.verify import verify
 from vlib.report import Obligation
@@ -459,6 +461,71 @@ def encoding_aliases(check, tier):
     s.done()
 
 
+_LOCALE_CHILD = r"""
+import json, locale, os, sys
+import curtsies.input as ci
+from curtsies import events
+payload = "é€😀".encode("utf-8") + b"\x1b[A" + b"a"
+out = {"preferred": locale.getpreferredencoding(False), "utf8_mode": sys.flags.utf8_mode}
+class S:
+    def __init__(self, fd): self.fd = fd
+    def fileno(self): return self.fd
+for mode in ("CURTSIES", "BYTES"):
+    for pt in (None, 2):
+        r, w = os.pipe()
+        os.write(w, payload)
+        keys = []
+        try:
+            inp = ci.Input(in_stream=S(r), keynames=events.Keynames[mode], paste_threshold=pt)
+            for _ in range(40):
+                e = inp.send(0)
+                if e is None:
+                    break
+                keys += list(e.events) if isinstance(e, events.PasteEvent) else [e]
+            keys = [k.decode("latin-1") if isinstance(k, bytes) else k for k in keys]
+        except Exception as ex:
+            keys = "raised %s: %s" % (type(ex).__name__, ex)
+        os.close(r); os.close(w)
+        out[mode + ("/paste" if pt else "")] = keys
+print(json.dumps(out))
+"""
+
+
+def locale_modes(check, tier):
+    """the encoding of the keys is the one Python itself reads the terminal with: the real Input, its own way of finding the encoding
+    NOT replaced, in child processes under locales / UTF-8 Mode settings in which that encoding is UTF-8 - non-ASCII characters typed
+    there must be reported as themselves"""
+    import subprocess
+    import sys as _sys
+    repo = os.environ.get("CURTSIES_REPO", "/repo")
+    envs = [dict(LC_ALL="C", PYTHONUTF8="1"), dict(LC_ALL="POSIX", PYTHONUTF8="1"), dict(LC_ALL="C.UTF-8"), dict(LC_ALL="C"),
+            dict(LANG="en_US.ISO-8859-1", LC_ALL="", PYTHONUTF8="1")]
+    s = Suite(check, "C03.locale_modes", "the real Input (encoding lookup not replaced) in child processes under LC_ALL=C / POSIX with UTF-8 Mode, "
+              "C.UTF-8, plain C (coerced) and a legacy locale with UTF-8 Mode: wherever Python's own preferred encoding is UTF-8, the typed "
+              "characters é € 😀, an arrow key and a letter come out as themselves (key by key and as a paste, both naming modes)",
+              bound=f"{len(envs)} environments", exhaustive=False)
+    want_c = ["é", "€", "😀", "<UP>", "a"]
+    want_b = ["é".encode().decode("latin-1"), "€".encode().decode("latin-1"), "😀".encode().decode("latin-1"), "\x1b[A", "a"]
+    for extra in envs:
+        env = {k: v for k, v in os.environ.items() if not k.startswith(("LC_", "LANG", "PYTHONUTF8", "PYTHONCOERCECLOCALE"))}
+        env.update(extra)
+        env["PYTHONPATH"] = repo + os.pathsep + env.get("PYTHONPATH", "")
+        s.case(tuple(sorted(extra.items())), sample=dict(extra))
+        try:
+            r = subprocess.run([_sys.executable, "-c", _LOCALE_CHILD], env=env, capture_output=True, text=True, timeout=60, encoding="utf-8")
+            got = json.loads(r.stdout.strip().splitlines()[-1])
+        except Exception as e:      # noqa: BLE001  (a child that cannot run is a harness matter, never a verdict)
+            check.note(f"C03.locale_modes: child under {extra} did not run: {e!r}")
+            continue
+        if str(got.get("preferred", "")).lower().replace("-", "").replace("_", "") != "utf8":
+            continue        # a genuinely non-UTF-8 terminal encoding: other expectations apply (covered by C03.encoding_aliases)
+        for key, want in (("CURTSIES", want_c), ("CURTSIES/paste", want_c), ("BYTES", want_b), ("BYTES/paste", want_b)):
+            if got.get(key) != want:
+                s.fail("C03.input.locale", dict(environment=extra, python_preferred_encoding=got.get("preferred"), utf8_mode=got.get("utf8_mode"), names=key),
+                       f"typed é € 😀 <UP> a under {extra}: Input reports {got.get(key)!r}, expected {want!r}")
+    s.done()
+
+
 def attach_probes():
     import contracts.findkey as FK
     FK.find_key.probe = find_key_probe
@@ -471,6 +538,7 @@ def run(check, tier, seed):
     verify(FK.find_key, tier, check, prefix="C03")
     whole_sequences(check, tier)
     encoding_aliases(check, tier)
+    locale_modes(check, tier)
     check.assume("stream level (deductive): Input._send.find_key consumes a non-empty prefix of the buffered bytes, never loses, duplicates "
                  "or reorders a byte, returns the decoder's answer for exactly the consumed bytes, cuts at the first recognised prefix, "
                  "returns None only for an empty buffer and raises only when no prefix is recognised (contracts/findkey.py); the decoder "
